@@ -6,9 +6,9 @@
    by hand here is only
    1. the launch-site glue of set_const_fixed (which Model field each kernel parameter is
       bound to, the launch grids, Base/Kernel.v's sequential launch over a heap of reals);
-   2. the host launch dimensions of every set_const launch whose output is a batched Model
-      field (copied from the `dim=` arguments of set_const.py, checked against the extracted
-      Gen/Skel_pipeline.v launch list by the correspondence of bin/props/C33.py);
+   2. the vocabulary of the batched-output statements (leading index of the writes of a task,
+      row-in-bounds test); the launch dimensions themselves are compared with the rows the
+      kernels write by the S-check of bin/props/C33.py on the extracted launch list;
    3. an abstract interpreter over the flattened host stage sequence (Model/Pipeline.v events)
       that tracks which field currently holds the INITIAL value of which field, used for the
       restore-state frame lemma. *)
@@ -74,6 +74,15 @@ Definition rows_of {S} (a : string) (row : Z) (ws : list (write S)) : Prop :=
    row  tid0 rem shape0  this needs only shape0 > 0; for a kernel that writes row tid0 it
    needs dim0 <= shape0. *)
 Definition row_in_bounds (row shape0 : Z) : bool := (0 <=? row) && (row <? shape0).
+
+(* 3x3 row-major matrix with orthonormal rows (a body frame xmat) *)
+Definition orth3 (m : list R) : Prop :=
+  match m with
+  | [b0; b1; b2; b3; b4; b5; b6; b7; b8] =>
+      (b0*b0 + b1*b1 + b2*b2 = 1 /\ b3*b3 + b4*b4 + b5*b5 = 1 /\ b6*b6 + b7*b7 + b8*b8 = 1 /\
+       b0*b3 + b1*b4 + b2*b5 = 0 /\ b0*b6 + b1*b7 + b2*b8 = 0 /\ b3*b6 + b4*b7 + b5*b8 = 0)%R
+  | _ => False
+  end.
 
 (* ================= 3. restore-state frame: abstract interpreter over events ============== *)
 Local Open Scope string_scope.
@@ -211,8 +220,7 @@ Definition restore_events : list event :=
    (S: ast scan of stores / atomics per kernel parameter). *)
 Definition sc_inplace : inplace_tab :=
   [("set_const._accumulate_subtreemass", [1%nat]);
-   ("smooth._subtree_com_acc", [1%nat]);
-   ("smooth._crb_accumulate", [1%nat])].
+   ("smooth._transmission", [29%nat])].   (* moment_nnz: a scratch counter passed as input *)
 
 (* integration state (types.py State.INTEGRATION) as Data field names *)
 Definition sc_state_fields : list string :=
